@@ -165,6 +165,15 @@ func c14Domains(e *domEnv) []*msgDom {
 			d.Authentications = []didtypes.VerificationRelationship{didtypes.NewVerificationRelationshipDedicated(didtypes.VerificationMethod{Id: id, Controller: ctl})}
 		}})
 	}
+	docField.Classes = append(docField.Classes, fclass{Label: "D1+method-controller-omitted", Odd: true, Set: func(m sdk.Msg) {
+		setDocShape(m, "D1") // the same document with the verification method's controller left empty is a different message
+		switch x := m.(type) {
+		case *didtypes.MsgCreateDIDRequest:
+			x.Document.VerificationMethods[0].Controller = ""
+		case *didtypes.MsgUpdateDIDRequest:
+			x.Document.VerificationMethods[0].Controller = ""
+		}
+	}})
 	docField.Classes = append(docField.Classes, fclass{Label: "D1-no-context", Odd: true, Set: func(m sdk.Msg) {
 		setDocShape(m, "D1")
 		switch x := m.(type) {
